@@ -27,12 +27,33 @@ func ruleTextRune(c *Ctx, r *Report) {
 		r.undecided(rule, "anchor:Atom.String", "-", "locate Atom.String", "not found")
 		return
 	}
+	type scanTarget struct {
+		name  string
+		arity int
+		fn    *ssa.Function
+	}
+	var targets []scanTarget
+	done := map[*ssa.Function]bool{}
 	for _, tb := range textBuiltins {
 		fn := c.registeredFn(tb.name, tb.arity)
 		if fn == nil {
 			r.undecided(rule, fmt.Sprintf("registered/%s/%d", tb.name, tb.arity), "-", "locate the builtin", "not registered")
 			continue
 		}
+		targets = append(targets, scanTarget{tb.name, tb.arity, fn})
+		for _, f := range withAnon(fn) {
+			done[f] = true
+		}
+	}
+	// every other library function (added after seed C06: the writer's spacing helpers classify an atom by its
+	// first character too)
+	for _, fn := range c.LibFuncs() {
+		if fn.Parent() == nil && !done[fn] {
+			targets = append(targets, scanTarget{"lib", -1, fn})
+		}
+	}
+	for _, tb := range targets {
+		fn := tb.fn
 		nuse := 0
 		for _, f := range withAnon(fn) {
 			// string values originating from Atom.String() (through local/captured variables and slicing by range offsets)
@@ -134,6 +155,11 @@ func ruleTextRune(c *Ctx, r *Report) {
 					} else {
 						r.bad(rule, key, c.at(x), desc, "an offset is not a range index of the same string: it may split a multi-byte character")
 					}
+				case *ssa.Index:
+					if isStringType(x.X.Type()) && isAtomText(x.X) {
+						nuse++
+						r.bad(rule, fmt.Sprintf("%s[%s/%d]/text[i]", fname(f), tb.name, tb.arity), c.at(x), "an atom's text is not indexed by byte", "s[i] yields a byte, not a character: a non-ASCII first character is classified by its UTF-8 lead byte")
+					}
 				case *ssa.Lookup:
 					if isStringType(x.X.Type()) && isAtomText(x.X) {
 						nuse++
@@ -150,7 +176,7 @@ func ruleTextRune(c *Ctx, r *Report) {
 				}
 			})
 		}
-		if nuse == 0 {
+		if nuse == 0 && tb.arity >= 0 {
 			r.info(rule, fmt.Sprintf("%s/%d", tb.name, tb.arity), c.Pos(fn.Pos()), "text measurement sites", "no measurement of an atom's text in this builtin")
 		}
 	}
